@@ -14,6 +14,27 @@ import numpy as np
 from . import expr as E
 
 
+CB_LOG = []   # invocations of the user callback in this process: (actor name, iteration)
+CB_HOOKS = {}  # actor name -> hook run from inside the callback (re-entry), set by the world
+
+
+def user_callback(name):
+    """the user's callback as a picklable object (a module-level class instance), so that an OCP with a registered
+    callback can be saved"""
+    return UserCallback(name)
+
+
+class UserCallback:
+    def __init__(self, name):
+        self.name = name
+
+    def __call__(self, it, sol):
+        CB_LOG.append((self.name, it))
+        hook = CB_HOOKS.get(self.name)
+        if hook is not None:
+            hook(it, sol)
+
+
 def jcopy(o):
     return json.loads(json.dumps(o))
 
@@ -188,6 +209,8 @@ def program(spec, consts=None, exprs=None):
             continue
         ops.append({"op": "set_value", "p": p, "v": v})
     for x, g in spec.initial:
+        if g[0] == "expr" and (cshape or exprs):
+            g = ["expr", sub(g[1])]
         ops.append({"op": "set_initial", "x": x, "g": g})
     return jcopy(ops)
 
@@ -461,21 +484,16 @@ class Actor:
                 else:
                     held[op["p"]] = val
             return o.set_value(self.env.lookup(op["p"]), val)
+        if k == "set_value_expr":  # (specification fault) a value for something that is no parameter
+            return o.set_value(E.inst(op["expr"], self.env), make_value(op["v"]))
+        if k == "set_initial_cat":  # guess for a concatenation of symbols
+            return o.set_initial(ca.vertcat(*[self.env.lookup(x) for x in op["xs"]]), self.guess(op["g"]))
         if k == "set_value_cat":
             return o.set_value(ca.vertcat(*[self.syms[p] for p in op["ps"]]), np.array(op["v"], dtype=float))
         if k == "set_initial":
             return o.set_initial(self.target(op["x"]), self.guess(op["g"]))
         if k == "callback":
-            log = self.hidden.setdefault("cb_log", [])
-            hidden = self.hidden
-
-            def cb(it, sol):
-                log.append(it)
-                hook = hidden.get("cb_hook")  # set by the world: re-entry from inside a running solve
-                if hook is not None:
-                    hook(it, sol)
-
-            return o.callback(cb)
+            return o.callback(user_callback(self.name))
         raise ValueError("not a specification op: %r" % (k,))
 
 
